@@ -42,7 +42,7 @@ PROBES = ["q_mut_q", "q_after_append", "q_after_remove", "q_after_modify_element
           "nonrange_index", "block_query_hit", "alias_retired", "nan_cell", "dup_value_hit", "new_column_added",
           "empty_table", "from_query_holder", "slice_holder", "copy_holder", "viewer_built", "viewer_child_block", "viewer_append", "viewer_append_to_empty", "viewer_from_iterator",
           "viewer_query", "viewer_query_on_child", "big_table", "bool_column_query", "bool_column_query_for_false",
-          "indexed_query_on_10k_rows", "indexed_query_on_10k_rows_labels_not_positions"]
+          "indexed_query_on_10k_rows", "indexed_query_on_10k_rows_labels_not_positions", "cell_write_added_column", "huge_int_query"]
 # the same check again, smaller, in interpreters started with assertions stripped (python -O / PYTHONOPTIMIZE=1)
 ENV_VARIANTS = [{"name": "python-O", "env": {"PYTHONOPTIMIZE": "1"}, "runs": {'quick': 2500, 'thorough': 25000}}]
 TIERS = {
@@ -51,6 +51,7 @@ TIERS = {
 }
 MIN_SECONDS = 20.0
 
+HUGE_VALS = [2 ** 100 + 7, 2 ** 64, -(2 ** 70) - 1]
 INT_VALS = [0, 1, 2, 3]      # 0 on purpose: a numpy zero is falsy
 STR_VALS = {"operation": ["x", "y", "block_start", "block_end"], "name": ["a", "b", "\u00e4\u540d", "a"]}
 BASE_COLS = ["stmt_id", "operation", "name", "v"]
@@ -132,6 +133,8 @@ def gen_knobs(rng, tier):
     return {
         "population": "big" if r_pop < 0.0025 else "default",
         "p_flag": rng.choice([0.0, 0.0, 0.2, 0.5]),
+        "p_huge": rng.choice([0.0, 0.0, 0.05, 0.2]),      # ids beyond 64 bits (digests used as ids): Python ints in object columns
+        "p_new_col_cell": rng.choice([0.0, 0.1, 0.3]),    # a cell write that names a column the table does not have yet
         "n_ops": rng.randint(4, 30),
         "max_rows": rng.choice([2, 4, 6, 8]),
         "p_none": rng.choice([0.0, 0.1, 0.3]),
@@ -156,9 +159,11 @@ def _gen_cell(rng, k, col):
     return rng.choice(STR_VALS.get(col, ["a", "b", "c", "a"]))
 
 
-def _gen_val(rng, col):
+def _gen_val(rng, col, k=None):
     """a value to ask a column for"""
     if col_kind(col) == "int":
+        if k and k.get("p_huge") and col in ("v", "n1", "v2") and rng.random() < k["p_huge"] * 2:
+            return rng.choice(HUGE_VALS)
         return rng.choice(INT_VALS)
     if col_kind(col) == "bool":
         return rng.choice([True, False, False])
@@ -184,6 +189,14 @@ def _gen_rows(rng, k, cols, n=None):
                 r["stmt_id"] = (b % 4) + 1 if rng.random() < 0.8 else b
         rows[i]["stmt_id"], rows[i]["operation"] = b, "block_start"
         rows[j]["stmt_id"], rows[j]["operation"] = b, "block_end"
+    # ids beyond 64 bits: pandas keeps them exact only in an object column, and it infers float64 (rounding them) when the same
+    # batch of rows also has a missing value in that column - so the column is complete in such a batch
+    for c in cols:
+        if c in ("v", "n1") and rows and k.get("p_huge") and rng.random() < k["p_huge"]:
+            for r in rows:
+                if r.get(c) is None:
+                    r[c] = rng.choice(INT_VALS)
+            rng.choice(rows)[c] = rng.choice(HUGE_VALS)
     # pandas infers float64 for a column without any value; a later str write would be refused by pandas itself.
     # keep the generator inside the domain where writes are type-correct: a str column must hold >= 1 string.
     for c in cols:
@@ -202,7 +215,7 @@ def _gen_query(rng, k, kind=None):
     if kind in ("qidx", "qval", "qfirst", "bundle_search", "unique", "access_column", "slow_query_first", "slow_query"):
         q["col"] = col
     if kind in ("qidx", "qval", "qfirst", "bundle_search", "slow_query_first", "slow_query"):
-        q["v"] = _gen_val(rng, col)
+        q["v"] = _gen_val(rng, col, k)
         if rng.random() < 0.05:
             q["v"] = None
     if kind in ("access",):
@@ -227,6 +240,8 @@ def _gen_mutation(rng, k):
     if rng.random() < k.get("p_flag", 0.0) * 0.6:
         col = "flag"
     if kind == "modify_element":
+        if rng.random() < k.get("p_new_col_cell", 0):
+            col = rng.choice(["n1", "s1"])
         op.update(i=rng.randrange(16), col=col, v=_gen_cell(rng, k, col))
     elif kind == "modify_row":
         op.update(i=rng.randrange(16), seed_vals=[rng.randrange(1000) for _ in range(8)], none_mask=[rng.random() < k["p_none"] for _ in range(8)])
@@ -586,6 +601,8 @@ def execute(trace):
             return kind != "b"            # a missing value into a pure bool column: left out (pandas decides about the dtype)
         if isinstance(value, bool):
             return kind in "bO" and str(dt) not in ("str", "string")
+        if isinstance(value, int) and not (-2 ** 63 <= value < 2 ** 63):
+            return kind == "O" and str(dt) not in ("str", "string")      # an int64 / float64 column cannot take it
         if kind == "b":
             return False
         if isinstance(value, str):
@@ -689,7 +706,20 @@ def execute(trace):
                 n = len(m.rows)
                 applied = False
                 if kind == "modify_element":
-                    if n and op["col"] in m.cols and writable(h, op["col"], op["v"]):
+                    if n and op["col"] not in m.cols and op["col"] in ("n1", "s1") and m.cols:
+                        # a cell write into a column the table does not have yet: pandas enlarges the frame, the table shows the
+                        # new column everywhere (missing in the other rows)
+                        i = op["i"] % n
+                        label = m.rows[i][0]
+                        retire_aliases(h)
+                        sut(lambda: h["dm"].modify_element(label, op["col"], op["v"]))
+                        m.cols.append(op["col"])
+                        for _, r_ in m.rows:
+                            r_[op["col"]] = None
+                        m.rows[i][1][op["col"]] = op["v"]
+                        applied = True
+                        hit("cell_write_added_column")
+                    elif n and op["col"] in m.cols and writable(h, op["col"], op["v"]):
                         i = op["i"] % n
                         label = m.rows[i][0]
                         retire_aliases(h)
@@ -1065,6 +1095,8 @@ def run_query(h, op, sut, hit, states, trans):
     col = op.get("col")
     if col is not None and col not in cols:
         return None, None, True
+    if isinstance(op.get("v"), int) and not isinstance(op.get("v"), bool) and abs(op["v"]) >= 2 ** 63:
+        hit("huge_int_query")
     if col == "flag":
         hit("bool_column_query")
         if op.get("v") is False:
